@@ -219,6 +219,7 @@ C04_Update(B, T, v, n, out) ==
   \cup (IF n.spent_neg \/ n.gain_neg THEN {V("C04", "totals_monotone", k, v)} ELSE {})
   \cup (IF n.moved /\ ~(n.spent_pos /\ n.en_down) THEN {V("C04", "driving_expends", k, v)} ELSE {})
   \cup (IF out = "ok" /\ a \in {"Idle", "ChargeQueueing"} /\ ~n.was_empty /\ ~(n.spent_pos /\ n.en_down)
+           /\ ~("idle_rate_zero" \in DOMAIN n /\ n.idle_rate_zero)     \* the definition itself says idling costs nothing
         THEN {V("C04", "idling_expends", k, v)} ELSE {})
   \cup (IF a \in Charging /\ n.en_down THEN {V("C04", "charging_never_lowers", k, v)} ELSE {})
   \cup (IF ~n.gain_le_plug THEN {V("C04", "charge_within_plug_power", k, v)} ELSE {})
@@ -288,7 +289,8 @@ C05_Totals(S, disp0, fares, nev) ==
 (* speak about one vehicle update in which the vehicle stays in the same travelling activity, i.e. a pure *)
 (* move: R0 the route before, R1 the remaining route after, k the number of links consumed entirely.      *)
 (* A link whose start equals its end is not driven at all (linktraversal.traverse_up_to: "already done"): it  *)
-(* costs no time and no distance whatever the length of the road-network link it names.                    *)
+(* costs no time and no distance whatever the length of the road-network link it names.  Likewise a whole  *)
+(* route whose first start equals its last end is dropped without being driven (HiveTraverse: closed).      *)
 LId(l) == l[1]   LStart(l) == l[2]   LEnd(l) == l[3]
 Degenerate(l) == l[2] = l[3]
 LDist(l) == IF Degenerate(l) THEN 0 ELSE l[4]
@@ -311,6 +313,10 @@ C06_Move(B, T, v, dt) ==
       a == B.veh[v].act
   IN
   IF ~PureMove(B, T, v) THEN {}
+  \* a route that ends where it starts (the street-graph router returns a loop round the block for a trip to the
+  \* vehicle's own position) is "consumed" by routetraversal.traverse without being driven: nothing moves
+  ELSE IF LStart(R0[1]) = LEnd(R0[Len(R0)]) THEN
+       (IF R1 # <<>> \/ dOdo # 0 \/ T.veh[v].pos # B.veh[v].pos THEN {V("C06", "closed_route_is_consumed", a, v)} ELSE {})
   ELSE IF k < 0 THEN {V("C06", "route_is_suffix", a, v)}
   ELSE
      \* the driven part followed by the remaining part is the original route: same links, same order, same
